@@ -414,6 +414,24 @@ func NewInst(s *sim.Sim, extra ...ExtraAction) (*Inst, error) {
 	return in, nil
 }
 
+// KeeperWithoutAuthority tries to construct an orbiter keeper on the application's store with the given authority
+// string (empty, malformed): the constructor must refuse it (it panics). When it does not, the keeper's own check of
+// a signer is returned, so that the caller can ask whether anybody - in particular the empty signer - passes it.
+func KeeperWithoutAuthority(s *sim.Sim, authority string) (accepted bool, requireAuthority func(string) error) {
+	defer func() {
+		if r := recover(); r != nil {
+			accepted, requireAuthority = false, nil
+		}
+	}()
+	key := s.App.UnsafeFindStoreKey("orbiter")
+	k := keeper.NewKeeper(s.App.OrbiterKeeper.Codec(), addresscodec.NewBech32Codec("noble"), log.NewNopLogger(), runtime.EventService{},
+		runtime.NewKVStoreService(key.(*storetypes.KVStoreKey)), authority, s.App.BankKeeper)
+	if k == nil {
+		return false, nil
+	}
+	return true, k.RequireAuthority
+}
+
 // With runs f with a fresh recorder carrying the given plan and returns what was recorded.
 func (in *Inst) With(plan []bool, lie int64, f func()) *Rec { return in.WithPanic(plan, lie, 0, f) }
 
